@@ -25,7 +25,8 @@ def C(label, text, props=(), guard=None, finding=None, stub_only=False):
 
 
 class Loop:
-    def __init__(self, invariant=(), decreases=None, ensures=(), invariant_except_break=(), body_start=None, body_end=None):
+    def __init__(self, invariant=(), decreases=None, ensures=(), invariant_except_break=(), body_start=None, body_end=None, before=None):
+        self.before = before        # ghost text placed right before the loop statement
         # ghost text placed right after the loop body's `{` / right before its `}` (structural anchors,
         # independent of the statements inside the body)
         self.body_start = body_start
